@@ -453,6 +453,9 @@ func runC34Case(r *vlib.Run, c *c34Case, rng *vlib.RNG, st *c34Stats) (traceHash
 				}
 				sw := map[string]any{"step": si, "hanging_run_roots": rr.roots, "goroutines_of_the_case": snap.lines,
 					"needed_not_memoised": maskList(need), "not_executed_in_this_step": maskList(need &^ started), "panicked": maskList(panicked)}
+				if sp := spinsSeen(); len(sp) > 0 {
+					sw["loops_that_exceeded_the_step_budget"] = sp
+				}
 				viol("run.hang", fmt.Sprintf("Run never returns (all its goroutines parked in %s): %s", strings.Join(snap.blockers, "+"), ctxt), sw)
 			}
 			break
